@@ -410,7 +410,8 @@ def handle (j : Json) : Except String Json := do
     let compiles := match r with | .ok _ => true | .error (.unsupported _) => true | _ => false
     let stmtFree := match r with | .error (.unsupported _) => false | _ => true
     pure (Json.mkObj [("dissect_ok", Json.bool allOk), ("compiles", Json.bool compiles),
-      ("statement_free", Json.bool stmtFree), ("tags", jNat tags.length)])
+      ("statement_free", Json.bool stmtFree), ("tags", jNat tags.length),
+      ("static_hyp", Json.bool (staticHyp true s))])
   | _ => throw s!"bad-op {op}"
 
 partial def loop (hin : IO.FS.Stream) (hout : IO.FS.Stream) : IO Unit := do
